@@ -274,7 +274,11 @@ def run(tier, seed):
                 for shuffle in ([False, True, 7] if deep else [c.rng.choice([False, True, 7])]):
                     use_cases = (ci % 3 == 2) and len(dims) > 1
                     sw = make_sweep(c.rng, dims, kind, cases=use_cases)
-                    sown = D.SownSweep(sw, shuffle, "combos")
+                    if shuffle and c.rng.random() < 0.3:
+                        # the shuffle setting given when the Crop is CONSTRUCTED, the sow call not repeating it
+                        sown = D.SownSweep(sw, False, "combos-default", shuffle)
+                    else:
+                        sown = D.SownSweep(sw, shuffle, "combos")
                     from harness.props.c04 import direct_output
                     direct = direct_output(sown)
                     n = sw.n_settings()
